@@ -213,6 +213,8 @@ RepLabel(l) == l \notin {"EmbeddedNul", "Surrogate", "BytesLbl", "IntLbl"}
 IsBoolMap(ks, ls) == Len(ks) = 2 /\ {<<ks[i], ls[i]>> : i \in 1..2} = {<<"Key0", "FalseLbl">>, <<"Key1", "TrueLbl">>}
 EntryOK(ks, ls, i) == /\ RepKey(ks[i]) /\ RepLabel(ls[i])
                       /\ (ks[i] = "Key0" => (ls[i] = "Unknown" \/ IsBoolMap(ks, ls)))    \* key 0 is "Unknown"
+\* (a wrapped key may land on another key of the map, in particular on key 0: the harness derives that consequence
+\*  - a stored map the reader refuses - from the concrete keys, see _wrapped_map_invalid in harness/checks/C08.py)
 DevKey(k) == IF k = "KeyOverU32" THEN "MapKeyWrapsU32" ELSE ""      \* h5_writer.py:466,481 np.array(..., dtype "<u4")
 EncKey(ks, ls, i, devs) ==
     IF EntryOK(ks, ls, i) THEN ks[i]
